@@ -19,6 +19,12 @@ class BlockList:
         self.update_neighbours(block)
 
     def grade_blocks(self) -> None:
+        # start from scratch: what neighbours copied from each other the last time
+        # is stale when vertices were moved in between
+        for block in self.blocks:
+            for axis in block.axes:
+                axis.wires.reset()
+
         for block in self.blocks:
             block.grade()
 
